@@ -33,9 +33,9 @@ void h_evict_object(void) { LRU* self; M(evict_object)(self); VERIF_REACH(); }
 void h_swap(void) { LRU* self; LRU* other; M(swap)(self, other); VERIF_REACH(); }
 #ifdef C12_SET
 void h_Item_ctor(void) { Item* it; size_t size; M(Item_ctor)(it, size); VERIF_REACH(); }
-void h_after_emplace(void) { LRU* self; umap_emplace_ret er; size_t size; M(after_emplace)(self, er, size); VERIF_REACH(); }
-void h_insert(void) { LRU* self; K k; size_t size; M(insert)(self, k, size); VERIF_REACH(); }
-void h_emplace(void) { LRU* self; K k; size_t size; M(emplace)(self, k, size); VERIF_REACH(); }
+void h_after_emplace(void) { LRU* self; umap_emplace_ret er; size_t in_size; M(after_emplace)(self, er, in_size); VERIF_REACH(); }
+void h_insert(void) { LRU* self; K k; size_t in_size; M(insert)(self, k, in_size); VERIF_REACH(); }
+void h_emplace(void) { LRU* self; K k; size_t in_size; M(emplace)(self, k, in_size); VERIF_REACH(); }
 void h_change_size(void) { LRU* self; K k; size_t ns; M(change_size)(self, k, ns); VERIF_REACH(); }
 void h_peek(void) { LRU* self; M(peek)(self); VERIF_REACH(); }
 #endif
@@ -47,12 +47,12 @@ void h_change_item_size(void) { LRU* self; Item* i; size_t ns; M(change_item_siz
 void h_at(void) { LRU* self; K k; M(at)(self, k); VERIF_REACH(); }
 void h_at_const(void) { LRU* self; K k; M(at_const)(self, k); VERIF_REACH(); }
 void h_item_size(void) { LRU* self; K k; M(item_size)(self, k); VERIF_REACH(); }
-void h_insert(void) { LRU* self; K k; ValueT v; size_t size; M(insert)(self, k, v, size); VERIF_REACH(); }
+void h_insert(void) { LRU* self; K k; ValueT v; size_t in_size; M(insert)(self, k, v, in_size); VERIF_REACH(); }
 void h_emplace(void) { LRU* self; K k; ValueT v; size_t size; M(emplace)(self, k, v, size); VERIF_REACH(); }
 void h_change_size(void) { LRU* self; K k; size_t ns; bool touch; M(change_size)(self, k, ns, touch); VERIF_REACH(); }
 void h_empty(void) { LRU* self; M(empty)(self); VERIF_REACH(); }
 #ifdef C12_INSERT_CONST
 #include "x_LRUMap_insert_const.c"
-void h_insert_const(void) { LRU* self; K k; ValueT v; size_t size; M(insert_const)(self, k, v, size); VERIF_REACH(); }
+void h_insert_const(void) { LRU* self; K k; ValueT v; size_t in_size; M(insert_const)(self, k, v, in_size); VERIF_REACH(); }
 #endif
 #endif
